@@ -227,12 +227,22 @@ def canon(fv, o, depth=0):
                 return canon(fv, rv[2], depth + 1)
     proj = []
     for e in pl[1]:
-        if isinstance(e, list) and e[0] == "i":
-            ic = canon(fv, ["c", [e[1], []]], depth + 1)
-            proj.append(("i", ic))
+        if isinstance(e, list) and e[0] in ("i", "ci"):
+            proj.append("[*]")      # any element of the same array: robust against re-rolling an unrolled carry chain into loops
         else:
             proj.append(repr(e))
     return ("p", pl[0], tuple(proj))
+
+
+def operand_ty(fv, o):
+    if o[0] == "k":
+        return o[1].get("ty")
+    pl = o[1]
+    ty = fv.locals[pl[0]]["ty"]
+    if not pl[1]:
+        return ty
+    m = re.search(r"\b(u8|u16|u32|u64|u128|usize)\b", ty)      # element type of the array / reference being indexed or dereferenced
+    return m.group(1) if m else ty
 
 
 def const_of(fv, o, depth=0):
@@ -269,11 +279,13 @@ def trunc(F, R, I, backend):
         if f is None or not SCOPE.search(fk) or CODEC.search(f["path"]):
             continue
         fv = view(F, f)
-        want = canon(fv, oper)
+        # the companion: some `>> k` (same k) of a value of the same integer type in the same function.  (Matching the exact operand
+        # was tried first and alarmed on a behaviour-preserving re-roll of `reduce` into loops / iter_mut, selftest benign-u64-reduce-loops.)
+        oty = operand_ty(fv, oper)
         found = False
         for b in fv.blocks:
             for s in b["s"]:
-                if s[0] == "=" and s[2][0] == "bin" and s[2][1] in ("Shr", "ShrUnchecked") and const_of(fv, s[2][3]) == k and canon(fv, s[2][2]) == want:
+                if s[0] == "=" and s[2][0] == "bin" and s[2][1] in ("Shr", "ShrUnchecked") and const_of(fv, s[2][3]) == k and operand_ty(fv, s[2][2]) == oty:
                     found = True
         n += 1
         inst = I("%s:mask%d#%d" % (f["path"].replace("curve25519_dalek::backend::", "")[-70:], k, sum(1 for kk in D.ip.trunc_log if kk[0] == fk and kk[2] == k and kk[1] < line)))
